@@ -47,6 +47,7 @@ def typed(prog):
         f["pts"] = [nt(a) for a in f["pts"]]
         f["rt"] = nt(f["rt"])
         walk(f["body"])
+        walk(f.get("defs", []))
     for d in p["top"]:
         if d["d"] == "var":
             d["t"] = nt(d["t"])
